@@ -40,11 +40,17 @@ pub struct Failure {
     /// Names the root cause narrowly: which clause of the property failed on which path.
     pub signature: String,
     pub message: String,
+    /// The failure is expensive to reproduce (watchdog expiry): report the case as found.
+    pub no_shrink: bool,
 }
 
 impl Failure {
     pub fn new(signature: impl Into<String>, message: impl Into<String>) -> Failure {
-        Failure { signature: signature.into(), message: message.into() }
+        Failure { signature: signature.into(), message: message.into(), no_shrink: false }
+    }
+    pub fn unshrinkable(mut self) -> Failure {
+        self.no_shrink = true;
+        self
     }
 }
 
@@ -151,7 +157,7 @@ impl Rec {
             *self.inconclusive.entry(why.to_string()).or_default() += 1;
         }
     }
-    fn merge(&mut self, o: Rec) {
+    pub fn merge(&mut self, o: Rec) {
         self.evaluations += o.evaluations;
         self.cases += o.cases;
         self.nontrivial.extend(o.nontrivial);
@@ -476,7 +482,12 @@ pub fn drive<P: Prop>(prop: &P, opts: &Options) -> i32 {
                     let rec = std::cell::RefCell::new(Rec::default());
                     let first_sig: std::cell::RefCell<Option<String>> = std::cell::RefCell::new(None);
                     let last_failure: std::cell::RefCell<Option<Failure>> = std::cell::RefCell::new(None);
+                    let frozen: std::cell::RefCell<Option<(Value, Failure)>> = std::cell::RefCell::new(None);
                     let result = runner.run(&strategy, |case| {
+                        if frozen.borrow().is_some() {
+                            // an unshrinkable failure was found: let the shrinker run dry
+                            return Ok(());
+                        }
                         let shrinking = first_sig.borrow().is_some();
                         if !shrinking && stop.load(Ordering::Relaxed) {
                             return Ok(());
@@ -503,6 +514,9 @@ pub fn drive<P: Prop>(prop: &P, opts: &Options) -> i32 {
                                     }
                                 }
                                 let msg = f.message.clone();
+                                if f.no_shrink {
+                                    *frozen.borrow_mut() = Some((serde_json::to_value(&case).unwrap(), f.clone()));
+                                }
                                 *last_failure.borrow_mut() = Some(f);
                                 Err(TestCaseError::fail(msg))
                             }
@@ -510,8 +524,13 @@ pub fn drive<P: Prop>(prop: &P, opts: &Options) -> i32 {
                     });
                     let mut rec = rec.into_inner();
                     let last_failure = last_failure.into_inner();
+                    let frozen = frozen.into_inner();
                     let viol = match result {
                         Ok(()) => None,
+                        Err(TestError::Fail(..)) if frozen.is_some() => {
+                            let (case_json, failure) = frozen.unwrap();
+                            Some(Violation { case_json, failure, origin: format!("generated worker={} (not shrunk)", w) })
+                        }
                         Err(TestError::Fail(_, case)) => {
                             // Re-run the minimal case to get its exact message.
                             let mut scratch = Rec::default();
